@@ -46,6 +46,8 @@ def features_for(spec, clause, detail, cand=None):
         for key in ("worker", "resource", "cumulative"):
             if detail.get(key):
                 f["resource_kind"] = "cumulative" if rs.cumulative_spec(spec, detail[key]) else "worker"
+        if clause.startswith("C08.obj."):
+            f["objective"] = clause[len("C08.obj."):]
         if detail.get("kind") in rs.LOGIC and detail.get("id") is not None:
             for c, _top in rs.all_constraints(spec):
                 if c.get("id") == detail["id"]:
